@@ -162,8 +162,14 @@ type ByzStrategy struct {
 	// sends a copy whose address list repeats its first entry (accused [H,H] or
 	// [H,X,H], accusers / receivers likewise). shuttermint refuses such lists, so
 	// on a correct chain the copy has no effect and the regular message follows.
-	Repeat     bool
-	AnswerLate bool // also apologize for accusations that reached the chain outside the accusing phase
+	Repeat bool
+	// ExtraApology: the apology message carries, behind (1) or in front of (2) the
+	// genuine entries, one more entry addressed to a keyper that never accused the
+	// sender, with an out-of-range evaluation (>= group order). shuttermint admits
+	// it (accusers only have to be distinct keypers other than the sender); the
+	// keypers' puredkg rejects that one entry.
+	ExtraApology int
+	AnswerLate   bool // also apologize for accusations that reached the chain outside the accusing phase
 }
 
 func (s ByzStrategy) String() string {
@@ -192,6 +198,9 @@ func (s ByzStrategy) String() string {
 	apo := apNames[s.Apology]
 	if s.Repeat {
 		cm = "repeated-addresses," + cm
+	}
+	if s.ExtraApology != 0 {
+		apo += []string{"", "+unsolicited-entry-behind", "+unsolicited-entry-in-front"}[s.ExtraApology]
 	}
 	if s.AnswerLate {
 		apo += "(also for late accusations)"
@@ -803,6 +812,26 @@ func (r *Run) act(b *byzActor) {
 					accusers = append(accusers, r.addrs[ap])
 					evals = append(evals, ev)
 				}
+			}
+		}
+		if len(accusers) > 0 && st.ExtraApology != 0 {
+			for p := 0; p < r.sc.N; p++ {
+				genuine := p == b.pos
+				for _, a := range accusers {
+					if a == r.addrs[p] {
+						genuine = true
+					}
+				}
+				if genuine {
+					continue
+				}
+				bogus := new(big.Int).Add(blsOrder, big.NewInt(5))
+				if st.ExtraApology == 1 {
+					accusers, evals = append(accusers, r.addrs[p]), append(evals, bogus)
+				} else {
+					accusers, evals = append([]common.Address{r.addrs[p]}, accusers...), append([]*big.Int{bogus}, evals...)
+				}
+				break
 			}
 		}
 		if len(accusers) > 0 {
